@@ -272,7 +272,42 @@ def r5_clock_roundtrip(ctx, cfg='A'):
     ctx.check(ok, 'clock-roundtrip', "SimTime::now() rebuilds exactly the duration SimTime::set_now() stored (seconds and sub-second nanoseconds in matching cells)", fn.where(), detail)
 
 
+def r6_bound_is_last_emitted(ctx):
+    """calendar queue: the field the insertion guard compares against is the one fetch_next sets to the emitted event's time"""
+    ctx.set_rule('C02.R6', 'A')
+    P = ctx.progs['A']
+    Q = 'des_cqueue::stable::CQueue'
+    L = 'des_cqueue::stable::linked_list::DualLinkedList'
+    fa, ff = P.fns.get(Q + '::add'), P.fns.get(Q + '::fetch_next')
+    if not (fa and ff):
+        ctx.violation('anchor:CQueue', 'unresolved-anchor CQueue::add / fetch_next'); return
+    ctx.touch(fa, ff)
+    guard = set()
+    for path, outcome, decs in fn_paths(ctx, fa):
+        if outcome != 'panic':
+            continue
+        for _, a in path_atoms(fa, path, decs):
+            if a[0] == 'cmp' and ('arg', 'time') in (a[2], a[3]):
+                o = a[3] if a[2] == ('arg', 'time') else a[2]
+                if o[0] == 'field' and o[1] == ('arg', 'self'):
+                    guard.add(o[2])
+    if not ctx.floor('guard field of CQueue::add', len(guard), 1):
+        return
+    emitted = set()
+    for (b, i, st) in [(b, i, st) for b in sorted(ff.reachable()) for i, st in enumerate(ff.stmts(b)) if st['k'] == 'assign']:
+        fl = [e for e in st['p']['pr'] if e['k'] == 'field']
+        if fl and not any(e['k'] == 'index' for e in st['p']['pr']):
+            t = peel(ff.expr_rvalue(st['r'], b, i))
+            if t[0] == 'call' and t[1] == L + '::front_time':
+                emitted.add(fl[-1].get('n'))
+    ctx.floor('fields fetch_next sets to the emitted timestamp', len(emitted), 1)
+    ctx.check(guard <= emitted, 'guard-is-emitted-time',
+              'CQueue::add rejects `time < B` where B is the field fetch_next sets to the timestamp of the event it emits (not the coarser bucket-window start): an insertion behind the last emitted event is refused instead of rewinding the clock',
+              fa.where(), {'guard_fields': sorted(guard), 'emitted_time_fields': sorted(emitted)})
+
+
 def run(ctx):
+    r6_bound_is_last_emitted(ctx)
     for cfg in [c for c in ('A', 'B') if c in ctx.progs]:
         r1_single_writer(ctx, cfg)
         r2_dispatch_order(ctx, cfg)
